@@ -512,6 +512,10 @@ def _run(ctx, hbin, scratch):
             viol('offset-exceeds-file-size:%s-%s' % (c.kind, c.mode), c, op, line, ' (offset %d > size %d)' % (max(offs), fsize))
         if any(a > b for a, b in zip(offs, offs[1:])):
             ctx.count('offset-not-monotone')
+        if r['status'].startswith('hang'):
+            # the harness watchdog cut a read loop that did not end (or produced > 4 GiB from a small file)
+            viol('read-loop-does-not-end:%s-%s' % (c.kind, c.mode), c, op, line, ' (Decompressor::read() never returns the empty string)')
+            continue
         ref_status, ref = reference(c.kind, c.data)
         want_total, want_crc = (len(ref), '%08x' % zlib.crc32(ref)) if ref_status == 'ok' else (None, None)
         truncated_stream = any(s.endswith(':t') or s.endswith(':ts') for s in c.streams)
